@@ -7,7 +7,7 @@
    Histories are operation lists; every statement quantifies over all of them. *)
 From Coq Require Import List ZArith Bool.
 From FRP Require Import Model.Health Model.Wrapper Model.Reconcile
-  Proofs.HealthProofs Proofs.WrapperProofs.
+  Proofs.HealthProofs Proofs.WrapperProofs Proofs.ReconcileProofs Proofs.ReconcileInv.
 Import ListNotations.
 Open Scope Z_scope.
 
@@ -134,7 +134,65 @@ Proof.
 Qed.
 Print Assumptions C19_start_error_retried_after_backoff.
 
+(* ================= reload: UpdateAll ================= *)
+
+(* From every well-formed manager state (pm_wf: unique names, live wrappers not closed, ids below
+   the allocation counter — it holds initially and UpdateAll preserves it), after UpdateAll cfgs:
+   the wrapper table has exactly the names of cfgs, each with the FIRST entry of that name;
+   an entry whose configuration is deep-equal to that first entry keeps its wrapper (same id, same
+   state) and nothing is sent or recorded for it; every other old entry was stopped — CloseProxy sent,
+   Stop recorded, the wrapper moved to the closed ones — and if the name is still configured the
+   table holds a fresh wrapper (new id, phase new); UpdateAll itself sends nothing but CloseProxy. *)
+Theorem C19_converges_to_last_config : forall t s cfgs, pm_wf s ->
+  let '(s', outs, evs) := pm_update t s cfgs in
+  pm_wf s' /\
+  (forall n, rc_get (pm_map s') n = None <-> rc_first cfgs n = None) /\
+  (forall n e', rc_get (pm_map s') n = Some e' -> rc_first cfgs n = Some (pe_cfg e')) /\
+  (forall n e, rc_get (pm_map s) n = Some e -> rc_first cfgs n = Some (pe_cfg e) ->
+     rc_get (pm_map s') n = Some e /\ ~ In (PMCloseProxy n) outs /\
+     (forall id, ~ In (PMStop id n) evs) /\ (forall id, ~ In (PMStart id n) evs)) /\
+  (forall n e, rc_get (pm_map s) n = Some e -> rc_first cfgs n <> Some (pe_cfg e) ->
+     In (PMCloseProxy n) outs /\ In (PMStop (pe_id e) n) evs /\ In (pm_stopped e) (pm_dead s') /\
+     (forall e', rc_get (pm_map s') n = Some e' ->
+        pm_next s <= pe_id e' /\ pe_w e' = pw_init (rc_hc (pe_cfg e')))) /\
+  (forall o, In o outs -> exists n, o = PMCloseProxy n).
+Proof. exact pm_update_converges. Qed.
+Print Assumptions C19_converges_to_last_config.
+
+(* loading a set and loading the identical set again — with or without duplicate names, in any
+   order of entries — stops nothing, starts nothing, sends nothing and leaves the state as it is *)
+Theorem C19_duplicate_names_stable : forall t s cfgs, pm_wf s ->
+  let '(s1, _, _) := pm_update t s cfgs in
+  pm_update t s1 cfgs = (s1, [], []).
+Proof. exact pm_update_identical. Qed.
+Print Assumptions C19_duplicate_names_stable.
+
+(* For every history of manager operations (reloads, per-wrapper ticks in any interleaving — also of
+   wrappers that were already stopped —, health callbacks, start replies, work connections, Close)
+   from the initial manager: the state stays well-formed, and at every step (pm_out_ok) no wrapper
+   is stopped a second time, a NewProxy names a proxy that is in the table with the configuration it
+   was loaded with and whose health flag is healthy, and a work connection is handed over only to a
+   running wrapper of the table.  Hence: a stopped proxy sends no further registration and accepts no
+   further work connection, at the level of the whole client. *)
+Theorem C19_manager_invariant_all_histories : forall t ops,
+  pm_wf (fst (pm_run t pm_init ops)) /\ pm_outs_ok t pm_init ops.
+Proof. intros t ops. exact (pm_history_inv t ops pm_init pm_wf_init). Qed.
+Print Assumptions C19_manager_invariant_all_histories.
+
 (* ---- the hypotheses are satisfiable / the statements are not vacuous ---- *)
+Example C19_ex_wf_init : pm_wf pm_init.
+Proof. exact pm_wf_init. Qed.
+
+Example C19_ex_duplicate_reload :
+  let t := {| pw_wait := 20000; pw_errto := 30000 |} in
+  let x1 := {| rc_name := 7; rc_val := 1000; rc_hc := false |} in
+  let x2 := {| rc_name := 7; rc_val := 2000; rc_hc := false |} in
+  let y := {| rc_name := 8; rc_val := 1; rc_hc := true |} in
+  let '(s1, _, ev1) := pm_update t pm_init [x1; x2; y] in
+  ev1 = [PMStart 0 7; PMStart 1 8] /\ pm_update t s1 [x1; x2; y] = (s1, [], []) /\
+  snd (pm_update t s1 [x2; x1; y]) = [PMStop 0 7; PMStart 2 7].
+Proof. repeat split. Qed.
+
 Example C19_ex_withdraw_at_3 :
   map (map (fun e => match e with HMNormal => 0 | HMFailed => 1 end))
       (snd (hm_run HKHttp (hm_full 3)
